@@ -193,7 +193,9 @@ func C02() *clustermc.Family {
 			}
 			return 0
 		},
-		Env:     clustermc.EnvOpts{BindOK: true, Terminate: true},
+		// BindPartial: the binder is between two device reservations of a multi-device pod (the pod carries the
+		// label of its first group only while its BindRequest still lists all of them)
+		Env:     clustermc.EnvOpts{BindOK: true, BindPartial: true, Terminate: true},
 		Oracles: []clustermc.Oracle{oracle.CapacityOracle("C02")},
 	}
 }
